@@ -98,6 +98,8 @@ func vfC19Check(p *vfC19Params, h []vfC19Ev, probeBusy []int, probeDone bool) *v
 				v.add("legit_timeouts", 1)
 				v.Contended = true
 			}
+		case "acq-mismatch", "racq-mismatch":
+			v.find("reply-not-for-this-request", fmt.Sprintf("goroutine %d op %d: the acquire on key %d returned success, but the reply belongs to another request (%s): request/response matching is broken, the caller holds nothing", e.G, e.Op, e.Key, e.Err), e)
 		case "acq-amb", "racq-amb":
 			v.add("acquires_outcome_unknown", 1)
 		case "rel-amb", "runl-amb", "xunl-amb":
@@ -289,7 +291,7 @@ func vfC19CheckRLockPartial(p *vfC19Params, h []vfC19Ev, v *vfC19Verdict) {
 		switch e.K {
 		case "acq":
 			open[k] = e.T
-		case "acq-ok", "acq-fail", "acq-amb", "acq-nsent":
+		case "acq-ok", "acq-fail", "acq-amb", "acq-nsent", "acq-mismatch":
 			s, ok := open[k]
 			if !ok {
 				continue
@@ -427,6 +429,8 @@ func vfC19CheckEvent(p *vfC19Params, h []vfC19Ev, v *vfC19Verdict) {
 		switch e.K {
 		case "wait":
 			open[k] = e.T
+		case "wait-mismatch":
+			v.find("reply-not-for-this-request", fmt.Sprintf("goroutine %d op %d: Wait on event key %d returned success with a reply that belongs to another request (%s)", e.G, e.Op, e.Key, e.Err), e)
 		case "wait-ok", "wait-fail", "wait-amb", "wait-nsent":
 			s, ok := open[k]
 			if !ok {
@@ -581,6 +585,15 @@ func vfC19RunAndJudge(env *vfEnv, part *vfPart, cl *vfC19Cluster, p *vfC19Params
 			part.Max(k, n)
 		} else {
 			part.Add(k, n)
+		}
+	}
+	if run.twoMgrSeen > 0 {
+		part.Add("cases_with_a_key_served_by_two_managers", 1)
+		for i := range v.Findings {
+			v.Findings[i].Detail += "; during this case the sampler saw a key of the case reachable through two live lock managers at once (fast slot and slow map)"
+			if len(v.Findings[i].Sig) < 13 || v.Findings[i].Sig[len(v.Findings[i].Sig)-13:] != ":two-managers" {
+				v.Findings[i].Sig = v.Findings[i].Clause + ":two-managers"
+			}
 		}
 	}
 	part.Add("herd_waits_tried", run.herdTried)
